@@ -9,6 +9,7 @@ mod gen_load;
 mod gen_sixel;
 mod gen_term;
 mod guard;
+mod icyfault;
 mod minimize;
 mod mon_term;
 mod monitors;
